@@ -1,5 +1,6 @@
 import Acra.Drv.FTI
+import Acra.Drv.Golay7
 namespace Acra.Drv
-def allCodecs : List Codec := ftiCodecs
-def allFuncs : List Func := ftiFuncs
+def allCodecs : List Codec := ftiCodecs ++ golay7Codecs
+def allFuncs : List Func := ftiFuncs ++ golay7Funcs
 end Acra.Drv
